@@ -41,6 +41,16 @@ func main() {
 			e.Emit(concCase(s, out, clean))
 		}
 		e.Meta["scheduled_runs"] = nConc
+		nAb := e.Scale(120, 1200)
+		if e.Search && focus != "" && !strings.HasPrefix(focus, "abandon/") {
+			nAb = nAb / 6
+		}
+		for i := 0; i < nAb && timeouts < 2*maxTimeouts; i++ {
+			s := genAbandon(e.Rnd)
+			out, clean := runConc(s, e.Rnd)
+			e.Emit(concCase(s, out, clean))
+		}
+		e.Meta["runs_with_callers_giving_up"] = nAb
 		e.Meta["expired_10s_bounds"] = timeouts
 		if (e.Thorough || e.Search) && !strings.HasPrefix(focus, "seq/") {
 			// complete enumeration of the schedules of a few small programs
